@@ -29,7 +29,7 @@ def _logp(x, c):
     return (-c * x * x).sum()
 
 
-def custom(cx, nsamples=3, nburnout=2, out="tensor", second=False, unused=True):
+def custom(cx, nsamples=3, nburnout=2, out="tensor", second=False, unused=True, buffered=False):
     s = cx.scalar("s")
     delta = cx.scalar("delta")
     x0 = cx.sym("x0", (1,))
@@ -39,8 +39,17 @@ def custom(cx, nsamples=3, nburnout=2, out="tensor", second=False, unused=True):
     u = cx.sym("u", (), requires_grad=True)     # enters neither f nor log p
     visited = []
 
+    buf = []
+
     def step(x, *pparams):
         xn = x * s + delta
+        if buffered:
+            # a stepper that writes into its own pre-allocated buffer and returns that same tensor object every time
+            if not buf:
+                buf.append(torch.zeros_like(xn))
+            buf[0].copy_(xn)
+            visited.append(xn)
+            return buf[0]
         visited.append(xn)
         return xn
     if out == "tuple":
@@ -169,6 +178,7 @@ def configs(tier):
     add("mhcustom/ns2_nb3/tensor", custom, nsamples=2, nburnout=3)
     add("mhcustom/ns3_nb1/tuple", custom, nsamples=3, nburnout=1, out="tuple")
     add("mhcustom/ns2_nb2/2nd", custom, nsamples=2, nburnout=2, second=True)
+    add("mhcustom/ns3_nb2/buffered_step", custom, nsamples=3, nburnout=2, buffered=True)
     for where in ("f", "logp"):
         for kind in ("derived", "duplicate"):
             add("param_graph/%s/%s" % (where, kind), param_graph, kind=kind, where=where)
